@@ -14,7 +14,7 @@ pub fn def() -> CheckDef {
         meta: CheckMeta {
             id: "C02",
             level: "fault_enumeration",
-            rule: "generated histories (small and large transactions, bucket deletes, growth from a 4-page file, page reuse, histories whose free list spans several pages: a few hundred page-sized values deleted at once, then small commits; histories that resize one value so that its leaf is exactly 2-4 pages long or one byte off; 1 history in 8 is turned into a legacy-format (<= 0.10 headers) file half-way; in 5 of 16 histories every write transaction is accompanied by a short-lived reader, open when the writer begins and closed before its commit or right after its begin) are executed by a worker process under the LD_PRELOAD I/O shim, which logs every write (offset, bytes), sync and file size on the database descriptor, with markers around every commit. For every group of writes between two completed syncs the analyser synthesises crash images on a scratch file: every subset of the unsynced writes (exhaustive up to 10 writes; above: none/all, singletons, complements, prefixes = process kill, suffixes, header-only, data-only, seeded random subsets), each write additionally torn at 512-byte sectors (prefix lost / tail lost / seeded sector subset) and header writes at 8-byte word granularity (every word prefix, every single word missing, every single word alone, seeded word subsets), with the file-size change durable or lost. Oracle per image: the independent parser says structurally sound and shows exactly S_{i-1} or S_i (exactly S_i once commit i has returned), and reopening through the public API succeeds and dumps the same. An evaluation is one distinct image (by content). Non-trivial = image with at least one but not all writes of its group applied, or a torn write.",
+            rule: "generated histories (small and large transactions, bucket deletes, growth from a 4-page file, page reuse, histories whose free list spans several pages: a few hundred page-sized values deleted at once, then small commits; histories that resize one value so that its leaf is exactly 2-4 pages long or one byte off; 1 history in 8 is turned into a legacy-format (<= 0.10 headers) file half-way; per shard 4 (thorough 8) histories with two commits of about a thousand pages each, sized so that the number of page writes per commit sweeps through 1024 across the shards; in 5 of 16 histories every write transaction is accompanied by a short-lived reader, open when the writer begins and closed before its commit or right after its begin) are executed by a worker process under the LD_PRELOAD I/O shim, which logs every write (offset, bytes), sync and file size on the database descriptor, with markers around every commit. For every group of writes between two completed syncs the analyser synthesises crash images on a scratch file: every subset of the unsynced writes (exhaustive up to 10 writes; above: none/all, singletons, complements, prefixes = process kill, suffixes, header-only, data-only, seeded random subsets), each write additionally torn at 512-byte sectors (prefix lost / tail lost / seeded sector subset) and header writes at 8-byte word granularity (every word prefix, every single word missing, every single word alone, seeded word subsets), with the file-size change durable or lost. Oracle per image: the independent parser says structurally sound and shows exactly S_{i-1} or S_i (exactly S_i once commit i has returned), and reopening through the public API succeeds and dumps the same. An evaluation is one distinct image (by content). Non-trivial = image with at least one but not all writes of its group applied, or a torn write.",
             assumptions: &[
                 "power-loss model: writes issued since the last completed fsync/fdatasync may be lost, reordered or torn at sector (header: word) granularity; a completed sync is durable including the file size",
                 "crashes during initial file creation are out of scope of the property",
@@ -268,6 +268,24 @@ pub fn exactfit_history(seed: u64) -> HistoryCase {
     HistoryCase { cfg: Cfg { pagesize: 1024, num_pages: if seed % 2 == 0 { 32 } else { 4 }, strict: false, populate: false }, fresh_handles: false, txs, dance: 0 }
 }
 
+/// Two commits of about two thousand 900-byte values each (about a thousand page runs) (then a small one): the number of
+/// page writes per commit sweeps, over the shards and seeds, through 1024.
+pub fn bigcommit_history(n: u16, seed: u64) -> HistoryCase {
+    let mut txs = vec![TxSpec { kind: TxKind::Commit, ops: vec![Op::GetOrCreate { b: 0, k: KeySel::Lit(b"b".to_vec()), kk: 2 }] }];
+    for round in 0..2u16 {
+        let mut ops = Vec::new();
+        let mut at = 0u16;
+        while at < n {
+            let m = (n - at).min(250) as u8;
+            ops.push(Op::PutRun { b: 0, base: vec![b'v'], start: at, step: 1, n: m, klen: 0, vlen: 880 + 20 * round });
+            at += m as u16;
+        }
+        txs.push(TxSpec { kind: TxKind::Commit, ops });
+    }
+    txs.push(TxSpec { kind: TxKind::Commit, ops: vec![Op::PutRun { b: 0, base: vec![b'v'], start: 3, step: 1, n: 5, klen: 0, vlen: 40 }] });
+    HistoryCase { cfg: Cfg { pagesize: 1024, num_pages: if seed % 2 == 0 { 4 } else { 4000 }, strict: false, populate: false }, fresh_handles: false, txs, dance: 0 }
+}
+
 pub fn crash_history(seed: u64) -> HistoryCase {
     if seed % 8 == 5 {
         return big_freelist_history(seed);
@@ -293,7 +311,15 @@ fn shard(ctx: &ShardCtx, known: &Known) -> ShardOut {
     let mut all_ex = true;
     for i in 0..n {
         let seed = mix(ctx.shard_seed("c02"), i as u64);
-        let history = crash_history(seed);
+        // the last histories of each shard are commits of about a thousand pages; over all shards
+        // the page-write counts of these commits sweep through 1024
+        let nbig = ctx.tier.pick(4, 8);
+        let history = if i + nbig >= n {
+            let j = (ctx.shard * nbig + (i + nbig - n)) as u16;
+            bigcommit_history(1870 + j, seed)
+        } else {
+            crash_history(seed)
+        };
         let dance = if seed % 4 == 2 { 1 } else if seed % 16 == 7 { 2 } else { 0 };
         // 1 history in 8 turns into a file written by a release <= 0.10 half-way: a Reopen is
         // inserted after the k-th transaction and both headers are re-encoded there
@@ -314,6 +340,9 @@ fn shard(ctx: &ShardCtx, known: &Known) -> ShardOut {
                     if out.nontrivial.len() < 400_000 {
                         out.nontrivial.insert(mix(*h, seed));
                     }
+                }
+                if std::env::var("JV_C02_DEBUG").is_ok() && i + ctx.tier.pick(4, 8) >= n {
+                    eprintln!("C02-DEBUG shard {} i {} groups {} max_group {}", ctx.shard, i, a.groups, a.max_group);
                 }
                 out.class_n("commits analysed", a.commits);
                 if case.legacy_at.is_some() {
